@@ -497,7 +497,38 @@ pub fn run(a: &Args) -> Batch {
     let nt = if a.thorough { 2000 } else { 120 };
     std::fs::create_dir_all(&a.out).unwrap();
     let mut rt = r.fork(77);
-    let typed_stats = crate::p18b::typed_elements(&mut rt, nt, &mut impl_findings);
+    let mut typed_texts = vec![];
+    let typed_stats = crate::p18b::typed_elements(&mut rt, nt, &mut impl_findings, &mut typed_texts);
+    // typed elements also go through the Coq model: printed documents of the modelled block types, the same with
+    // one damaged line, and the blocks of those types of the real files re-printed on their own
+    let mut typed_cases: Vec<(String, String)> = vec![];
+    let nty = if a.thorough { typed_texts.len() } else { 40.min(typed_texts.len()) };
+    for (i, t) in typed_texts.iter().take(nty).enumerate() {
+        typed_cases.push((format!("printed {}", i), t.clone()));
+        if i % 2 == 0 {
+            let nl = t.split_inclusive('\n').count().max(1);
+            if let Some(d) = crate::p19::damage(t, rt.below(nl), [0usize, 1, 3, 4, 5, 6][rt.below(6)], rt.below(10)) {
+                typed_cases.push((format!("printed {} with one damaged line", i), d));
+            }
+        }
+    }
+    for &i in order.iter().take(nreal) {
+        let (name, text) = &real[i];
+        if let (_, _, Some(bs)) = impl_term(text) {
+            use BdlBlockType::*;
+            let sel: Vec<BdlBlock> = bs.into_iter().filter(|b| matches!(b.btype, Material | GlassType | NameFrame | Window | BuildingShade)).collect();
+            if !sel.is_empty() {
+                let mut rr = r.fork(5000 + i as u64);
+                typed_cases.push((format!("typed blocks of {}", name), reprint(&mut rr, &sel, false)));
+            }
+        }
+    }
+    let mut ntyped = 0usize;
+    for (label, t) in &typed_cases {
+        let (term, cls) = crate::p18b::typed_case(t);
+        ntyped += 1;
+        cases.push(Case { term, post: String::new(), json: json!({"kind": "typed elements", "file": label, "data_new": (["built", "rejected", "crashed"][cls])}), nontrivial: true });
+    }
     let mut kyg_texts = vec![];
     let kyg_stats = crate::p18b::kyg_files(&mut rt, nt, &mut impl_findings, &mut kyg_texts);
     // KyG files also go through the Coq model: the shipped ones, printed ones, and printed ones with one damaged line
@@ -541,7 +572,7 @@ pub fn run(a: &Args) -> Batch {
     let _ = std::fs::remove_file(&scratch);
     let building_stats = crate::p18c::buildings(&mut rt, nt, &mut impl_findings);
     Batch {
-        imports: "From Coq Require Import ZArith NArith QArith List String.\nFrom CTE Require Import Base.Num Model.Bdl Model.BdlCase Model.Kyg Model.KygCase Model.Tbl Model.TblCase Model.C18Case.\nLocal Open Scope string_scope.".into(),
+        imports: "From Coq Require Import ZArith NArith QArith List String.\nFrom CTE Require Import Base.Num Model.Bdl Model.BdlCase Model.Kyg Model.KygCase Model.Tbl Model.TblCase Model.BdlTyped Model.TypedCase Model.C18Case.\nLocal Open Scope string_scope.".into(),
         case_ty: "c18any".into(),
         agree: "agree_C18any".into(),
         cases,
@@ -549,6 +580,6 @@ pub fn run(a: &Args) -> Batch {
         rule: "real files = BDL text of the shipped .ctehexml projects and legacy .cte files (all in the thorough tier, a seeded slice of 8 of those under 150 kB in the quick tier), as shipped and re-printed from their parsed blocks in another layout (indentation, spacing around '=', CRLF, comment lines, numbers re-spelled with exponents or an explicit sign), where the typed elements (bdl::Data, compared through Debug) must also be identical; printed documents = 1..40 blocks of any of the 53 block types with 0..8 attributes: numbers (integers, decimals, signs, leading/trailing dot, lower and upper case exponents, f32 extremes), bare words, quoted strings (empty, with '=', '$', parentheses, numeric content), one-line and multi-line lists (closing parenthesis on the last item or on its own line), under random indentation, trailing blanks, blank and comment lines, CRLF, and the legacy LIDER preamble; names are identifiers that are not numeric literals; non-trivial = some block has attributes. Besides the Coq cases, three differential tests in Rust (no theorem): MATERIAL / GLASS-TYPE / NAME-FRAME / BUILDING-SHADE / WINDOW blocks with random values, optional attributes (legacy defaults) and attribute order through bdl::Data::new; whole small buildings (FLOOR, POLYGON, SPACE, walls of every kind and location, WINDOW, LAYERS, CONSTRUCTION) with optional attributes left out; KyGananciasSolares.txt in both column layouts with either decimal separator; NewBDL_O.tbl files - every written value must come back bit-exactly".into(),
         stats: json!({"real_files": nreal, "real_files_reprinted": nreprinted, "real_files_typed_elements_compared": ntyped_real, "printed_documents": a.n, "printed_blocks": nblocks, "printed_attributes": nattrs,
                        "attribute_kinds": {"number": kinds[0], "word": kinds[1], "quoted": kinds[2], "list": kinds[3]},
-                       "typed_elements": typed_stats, "kyg": kyg_stats, "kyg_files_in_coq": nkyg, "tbl": tbl_stats, "tbl_files_in_coq": ntbl, "buildings": building_stats}),
+                       "typed_elements": typed_stats, "typed_documents_in_coq": ntyped, "kyg": kyg_stats, "kyg_files_in_coq": nkyg, "tbl": tbl_stats, "tbl_files_in_coq": ntbl, "buildings": building_stats}),
     }
 }
